@@ -90,6 +90,13 @@ pub fn generate(rng: &mut Rng, tier: Tier, emit: &mut dyn FnMut(String)) {
             }
         }
     }
+    // the algorithm of the property statement on unbounded naturals (model `shardOfSpec`) against the same
+    // algorithm written out here in u128 arithmetic and against `shard_of` on the raw token
+    for _ in 0..1_000 * scale {
+        let n = shard_count(rng);
+        let msb = if rng.chance(1, 3) { 12 } else { rng.below(64) as u8 };
+        emit(format!("shardspec {} {} {}", n, msb, rng.i64_boundary()));
+    }
     for _ in 0..2_000 * scale {
         emit(format!("port {} {}", shard_count(rng), rng.below(65536)));
     }
@@ -130,8 +137,9 @@ pub fn generate(rng: &mut Rng, tier: Tier, emit: &mut dyn FnMut(String)) {
         let msb = *rng.pick(&[0u32, 12, 63, 64, 255, 256]);
         emit(format!("shardinfo {} {} {}", shard, n, msb));
     }
-    // the whole `try_from`: every combination of {absent, empty list, not a number, boundary numbers} per entry
-    let words: [&str; 12] = ["-", "e", "x", "0", "1", "3", "255", "256", "65535", "65536", "4294967296", "12"];
+    // the whole `try_from`: every combination of {absent, empty list, not a number, boundary numbers, the corners of
+    // `parse::<u16>`'s accept set: `+5` and `007` are numbers, `1_0` and the empty string are not} per entry
+    let words = crate::c11_conn::NUM_WORDS;
     for a in words {
         for b in words {
             for c in words {
@@ -139,6 +147,8 @@ pub fn generate(rng: &mut Rng, tier: Tier, emit: &mut dyn FnMut(String)) {
             }
         }
     }
+    // second layer: the consumer loop, the public wrappers, ShardAwarePortRange::new, SUPPORTED as open_connection keeps it
+    crate::c11_conn::generate(rng, tier, emit);
 }
 
 fn opt(p: Option<u16>) -> String {
@@ -147,6 +157,12 @@ fn opt(p: Option<u16>) -> String {
 
 pub fn run(case: &str, ctx: &mut Ctx) -> String {
     let w: Vec<&str> = case.split_whitespace().collect();
+    if w.is_empty() {
+        return "bad-case".to_owned();
+    }
+    if let Some(out) = crate::c11_conn::run(&w, ctx) {
+        return out;
+    }
     let num = |i: usize| -> i64 { w[i].parse().unwrap() };
     match w[0] {
         "shard" => {
@@ -183,6 +199,22 @@ pub fn run(case: &str, ctx: &mut Ctx) -> String {
                 ctx.fail(format!("shard_of = {} but ScyllaDB's algorithm gives {} (nr_shards {}, msb_ignore {}, raw token {})", s, expected, n, num(2), token.value()));
             }
             s.to_string()
+        }
+        "shardspec" => {
+            // (((token + 2^63) * 2^msb) mod 2^64 * n) / 2^64 with nothing but u128 arithmetic; msb < 64
+            let (n, msb, tok) = (num(1) as u16, num(2) as u32, num(3));
+            if msb >= 64 {
+                return "bad-case".to_owned();
+            }
+            let biased = (tok as i128 + (1i128 << 63)) as u128; // 0 ..= 2^64 - 1
+            let shifted = (biased << msb) & ((1u128 << 64) - 1);
+            let spec = ((shifted * n as u128) >> 64) as u32;
+            let token: Token = w[3].parse().unwrap();
+            let s = Sharder::new(ShardCount::new(n).unwrap(), msb as u8).shard_of(token);
+            if s != spec {
+                ctx.fail(format!("shard_of = {} but ScyllaDB's algorithm on naturals gives {} (nr_shards {}, msb_ignore {}, raw token {})", s, spec, n, msb, tok));
+            }
+            spec.to_string()
         }
         "port" => {
             let n = num(1) as u16;
@@ -271,7 +303,8 @@ pub fn run(case: &str, ctx: &mut Ctx) -> String {
                         options.insert((*key).into(), vec![]);
                     }
                     v => {
-                        // a second value must be ignored: only the first one counts
+                        // a second value must be ignored: only the first one counts; `""` stands for the empty string
+                        let v = if v == "\"\"" { "" } else { v };
                         options.insert((*key).into(), vec![v.into(), "7".into()]);
                     }
                 }
@@ -281,7 +314,12 @@ pub fn run(case: &str, ctx: &mut Ctx) -> String {
                     if s >= n || n == 0 {
                         ctx.fail(format!("accepted shard info shard={} nr_shards={}", s, n));
                     }
-                    if w[1..4].iter().any(|x| x.parse::<u32>().is_err()) {
+                    // a number here: ASCII digits after at most one `+` (written out, not through `parse`)
+                    let is_number = |x: &&str| {
+                        let d = x.strip_prefix('+').unwrap_or(x);
+                        !d.is_empty() && d.bytes().all(|b| b.is_ascii_digit())
+                    };
+                    if !w[1..4].iter().all(is_number) {
                         ctx.fail(format!("accepted shard info although an entry is missing or not a number: {:?}", &w[1..4]));
                     }
                     format!("ok {} {} {}", s, n, m)
